@@ -365,7 +365,10 @@ def main(argv):
         seed = 1
     t0 = time.time()
     meta = load_meta(prop)
-    build = os.path.join(VERIF, "build", prop)
+    # a tree other than /repo (VERIF_REPO, used to test checks against mutated scratch worktrees) gets its own
+    # build directory, so that its harness binaries never replace the ones built from /repo
+    alt = REPO.rstrip("/") != "/repo"
+    build = os.path.join(VERIF, "build", prop + ("@" + hashlib.sha1(REPO.encode()).hexdigest()[:8] if alt else ""))
     os.makedirs(build, exist_ok=True)
     log = []
     broken = []        # obligations / correspondence that no longer check
@@ -565,6 +568,8 @@ def main(argv):
     os.makedirs(os.path.join(VERIF, "evidence"), exist_ok=True)
     if not a.replay:
         json.dump(ev, open(os.path.join(VERIF, "evidence", prop + ".json"), "w"), indent=1, default=str)
+    if alt:
+        shutil.rmtree(build, ignore_errors=True)
     shutil.rmtree(os.path.join(build, "runs", str(os.getpid())), ignore_errors=True)
     shutil.rmtree(os.path.join(build, "gen_%d" % os.getpid()), ignore_errors=True)
     for l in out_lines:
